@@ -7,6 +7,7 @@ import SpecModel.Codec.Gob
 import SpecModel.Codec.Idem
 import SpecModel.Codec.GobSafe
 import SpecModel.Codec.Perm
+import SpecModel.Codec.Lookup
 
 namespace SpecModel.CodecOps
 open SpecModel SpecModel.Codec
@@ -43,6 +44,18 @@ def tidyOp (j : Lean.Json) : Except String String := do
   let doc ← Wire.jsonField j "doc"
   pure (if tidyB doc then "tidy" else "untidy")
 
+/-- `{"op":"lookup","kind":K,"doc":<wire JSON: the encoding of the typed value>,"tok":T}` ↦ the encoding of what
+`K.JSONLookup(T)` returns | `error` -/
+def lookupOp (j : Lean.Json) : Except String String := do
+  let kind ← Wire.strField j "kind"
+  let tok ← Wire.strField j "tok"
+  let doc ← Wire.jsonField j "doc"
+  match doc with
+  | .obj ms => pure (match lookupTok kind ms tok with
+      | some v => v.render
+      | none => "error")
+  | _ => pure "error"
+
 def op (name : String) (j : Lean.Json) : Except String String :=
   match name with
   | "norm" => normOp j
@@ -50,6 +63,7 @@ def op (name : String) (j : Lean.Json) : Except String String :=
   | "clean" => cleanOp j
   | "gobsafe" => gobSafeOp j
   | "tidy" => tidyOp j
+  | "lookup" => lookupOp j
   | _ => .error s!"bad-op:unknown {name}"
 
 end SpecModel.CodecOps
